@@ -455,6 +455,8 @@ type Case struct {
 	SchemaSDL     string         `json:"schema_sdl,omitempty"`
 	Introspection bool           `json:"introspection,omitempty"`
 	Deadline      bool           `json:"deadline,omitempty"`
+	Batch         []Case         `json:"batch,omitempty"`  // run these at the same time on one executable schema, Rounds times over
+	Rounds        int            `json:"rounds,omitempty"` // each is compared (in the probe) with its own sequential run
 }
 
 type Result struct {
@@ -469,6 +471,17 @@ type Result struct {
 	Order        []string          `json:"order,omitempty"`
 	Crashed      bool              `json:"crashed,omitempty"`
 	Ignored      []string          `json:"ignored,omitempty"`
+	BatchRuns    int               `json:"batch_runs,omitempty"`
+	BatchDiffs   []BatchDiff       `json:"batch_diffs,omitempty"`
+}
+
+// BatchDiff: a case of a batch whose responses, with the other cases in flight, differ from its own sequential run
+type BatchDiff struct {
+	Round int               `json:"round"`
+	Index int               `json:"index"`
+	Got   []json.RawMessage `json:"got"`
+	Want  []json.RawMessage `json:"want"`
+	Hang  bool              `json:"hang,omitempty"`
 }
 
 // ---- response canonicalisation ----------------------------------------------------------------------
